@@ -49,6 +49,15 @@ func Harness_C03_external_types() {
 	verifCover("end")
 }
 
+func Harness_C03_qualified_literals() {
+	a := verifInt("a")
+	var b1 sizeB = mkFirstQ(a)
+	var b2 sizeB = mkLaterQ(a)
+	var a1 sizeA = mkLaterA(a)
+	verifAssert(b1 == sizeB{a, 3} && b2 == sizeB{a, 3} && a1 == sizeA{a, 4}, "a record literal builds the record its qualifier names, on whichever field the qualifier is written")
+	verifCover("end")
+}
+
 func Harness_C03_unions() {
 	x := verifInt("x")
 	var u U = U_P{Value: x}
